@@ -78,7 +78,7 @@ def handle (toks : List String) : Option String :=
       let tbl ← parseTable m rest
       if recs.isEmpty then pure "panic" else
       let H := tableH tbl
-      let p := verifyNsec3 asIs H base32hex q qt soa rc wl recs soft hard
+      let p := verifyNsec3 current H base32hex q qt soa rc wl recs soft hard
       pure (showProof p ++ " " ++ classOf H base32hex q qt soa rc wl recs soft hard)
     | [] => none
   | "vx" :: bits :: q :: qt :: soa :: rc :: wl :: soft :: hard :: n :: rest => do
